@@ -165,8 +165,49 @@ def shapepy_empty():
     return shapepy.EmptyShape()
 
 
+def program_case(ctx):
+    """results of nested operator expressions (leaf re-use included) are well formed"""
+    rng = ctx.rng
+    nleaves = rng.randint(2, 3)
+    num = rng.choice(["int", "frac", "float"])
+    specs = []
+    for i in range(nleaves):
+        off = (rng.uniform(-8, 8), rng.uniform(-8, 8))
+        if num == "int":
+            off = (round(off[0] * 4), round(off[1] * 4))
+        s_, _ = G.random_shape(rng, rng.choice("SSSCDU"), num, False, off, 10.0 * rng.choice([0.5, 1.0]))
+        specs.append(s_)
+    prog = W.random_program(rng, nleaves, rng.randint(2, 3))
+    text = W.program_text(prog)
+    case = Case(ctx, {"leaves": specs, "program": text, "mode": "program"}, "program-%s" % num)
+    leaves = [G.build(s_) for s_ in specs]
+    case.tags["contact"] = False
+
+    def on_node(op, operands, node_text):
+        if len(operands) == 2:
+            cls = W.pair_class(S.snap_shape(operands[0]), S.snap_shape(operands[1]))
+            if cls["contact"] or (op == "xor" and cls["class"] == "crossing"):
+                case.tags["contact"] = True
+
+    try:
+        result = W.eval_program(prog, leaves, on_node)
+    except W.ProgramFailure as exc:
+        case.count("program-raised")
+        case.unsure("program raised (C01's business): %s" % str(exc)[:120])
+        return case.finish()
+    case.count("wellformed:judged")
+    case.judged()
+    for msg, det in P.judge_wellformed(result)[:2]:
+        case.violate("program %s: %s" % (text, msg), program=text)
+    if hasattr(result, "jordans"):
+        case.nontrivial = True
+    return case.finish()
+
+
 def case(ctx):
     rng = ctx.rng
+    if ctx.index % 8 == 7:
+        return program_case(ctx)
     mode = ctx.index % 3
     if mode == 2:
         kind = rng.choice("SSUCCDDNNV")
